@@ -5,6 +5,7 @@ import (
 	"go/ast"
 	"go/token"
 	"go/types"
+	"sort"
 	"strings"
 
 	"golang.org/x/tools/go/ssa"
@@ -536,14 +537,117 @@ func (c *Ctx) invoke(fr *Frame, st *State, site ssa.Instruction, recv *Val, m *t
 	it := recv.T
 	c.safety(fr, "nil-iface-call "+m.Name()+" "+exprText(fr, site), site, not(eq(app("itag", recv.Term), "0")))
 	c.assume(not(eq(app("itag", recv.Term), "0")))
+	// dynamic dispatch: in-package implementers whose method is under contract are called through
+	// that contract; every other dynamic type goes through the interface-method contract (or the default)
+	cands := c.prog.implementers(it, m.Name())
+	if len(cands) == 0 || c.dry > 0 {
+		return c.invokeExternal(fr, st, site, recv, m, args, rt)
+	}
+	base := c.curReach
+	var sts []*State
+	var conds []string
+	var vals []*Val
+	var exits []*exitInfo
+	var notAny []string
+	for _, cd := range cands {
+		cond := c.typeIs(recv, cd.recvT)
+		notAny = append(notAny, not(cond))
+		bst := st.clone()
+		c.curReach = and(base, cond)
+		self := c.unbox(bst, app("ival", recv.Term), cd.recvT)
+		r, ex := c.contractCall(fr, bst, site, cd.fn, cd.con, append([]*Val{self}, args...), rt)
+		exits = append(exits, ex...)
+		if c.curReach != "false" {
+			sts = append(sts, bst)
+			conds = append(conds, c.curReach)
+			vals = append(vals, r)
+		}
+	}
+	est := st.clone()
+	c.curReach = and(append([]string{base}, notAny...)...)
+	r, ex := c.invokeExternal(fr, est, site, recv, m, args, rt)
+	exits = append(exits, ex...)
+	if c.curReach != "false" {
+		sts = append(sts, est)
+		conds = append(conds, c.curReach)
+		vals = append(vals, r)
+	}
+	if len(sts) == 0 {
+		c.curReach = "false"
+		return c.zeroOrFresh(rt), exits
+	}
+	mst := c.mergeStates(sts, conds)
+	st.regs, st.heap, st.epoch = mst.regs, mst.heap, mst.epoch
+	reach := or(conds...)
+	if len(reach) > 30 {
+		rn := c.fresh("reach_inv", "Bool")
+		c.assumeAlways(eq(rn, reach))
+		reach = rn
+	}
+	c.curReach = reach
+	var res *Val
+	if tt, ok := rt.(*types.Tuple); ok && tt.Len() == 0 {
+		res = &Val{T: rt}
+	} else {
+		res = c.mergeVals(vals, conds, "inv")
+	}
+	return res, exits
+}
+
+func (c *Ctx) invokeExternal(fr *Frame, st *State, site ssa.Instruction, recv *Val, m *types.Func, args []*Val, rt types.Type) (*Val, []*exitInfo) {
+	it := recv.T
 	// interface method contract: ext (<pkg>.<Iface>).<Method>
 	key := "(" + typeName(it) + ")." + m.Name()
+	all := append([]*Val{recv}, args...)
 	if con := c.prog.Contracts["ext::"+key]; con != nil {
-		all := append([]*Val{recv}, args...)
 		return c.extContractCall(fr, st, site, con, m, all, rt)
 	}
-	all := append([]*Val{recv}, args...)
 	return c.defaultExternal(fr, st, "invoke "+key, all, rt), nil
+}
+
+type implCand struct {
+	recvT types.Type
+	fn    *ssa.Function
+	con   *Contract
+}
+
+// implementers: logg methods under contract whose receiver type implements interface type it.
+func (P *Program) implementers(it types.Type, method string) []implCand {
+	iface, ok := it.Underlying().(*types.Interface)
+	if !ok {
+		return nil
+	}
+	P.mu.Lock()
+	defer P.mu.Unlock()
+	key := typeName(it) + "." + method
+	if P.implCache == nil {
+		P.implCache = map[string][]implCand{}
+	}
+	if r, ok := P.implCache[key]; ok {
+		return r
+	}
+	var out []implCand
+	var keys []string
+	for k := range P.Contracts {
+		keys = append(keys, k)
+	}
+	sort.Strings(keys)
+	for _, k := range keys {
+		con := P.Contracts[k]
+		if con.External || con.Inline {
+			continue
+		}
+		fn := P.funcs[k]
+		if fn == nil || fn.Signature.Recv() == nil || fn.Name() != method {
+			continue
+		}
+		rt := fn.Signature.Recv().Type()
+		if types.Implements(rt, iface) {
+			out = append(out, implCand{recvT: rt, fn: fn, con: con})
+		}
+	}
+	P.implCache[key] = out
+	return out
 }
 
 // extContractCall applies an assumed contract of an interface method: params are named self, a0, a1 ... or by signature names.
